@@ -20,6 +20,11 @@ WORDS = [
     ('concave', 1200, 2.0, 'ramp',
      [('S', 3, 5), ('D', 6), ('S', 2, 3), ('D', 6), ('S', 1, 5), ('D', 6),
       ('S', 2, 5), ('D', 4)]),
+    # the last dry spell lies far above all others: an interstorm interval
+    # that is NOT part of the master recession curve, with its own ET
+    ('uniform', 3600, 1.0, 'ramp',
+     [('S', 2, 5), ('D', 6), ('S', 3, 5), ('D', 6), ('S', 2, 5), ('D', 4),
+      ('S', 3, 14), ('D', 3)]),
 ]
 _DB = {}
 
